@@ -12,7 +12,7 @@ for d in sorted(os.listdir('/verif/seeded')):
     rp = '/verif/seeded/%s/result.json' % d
     r = json.load(open(rp)) if os.path.exists(rp) else {}
     det = m.get('detection', {})
-    caught = [k.split(':')[0] + ' (' + ', '.join(v['signatures'][:2]) + ')' for k, v in r.items() if v['caught']]
+    caught = [k.split(':')[0] + ' (' + ', '.join(v['signatures'][:2]) + ')' for k, v in r.items() if v['caught'] and ':seed' not in k]
     hist = ('missed at first — ' + det.get('what_was_strengthened', '')) if det.get('first_run') == 'missed' else 'caught by the check as it was'
     if m.get('neutralised_by_fix'):
         hist += ' — NOTE: since fix %s this change no longer alters behaviour (%s)' % (m['neutralised_by_fix']['commit'], m['neutralised_by_fix']['why'][:200])
@@ -32,7 +32,9 @@ round b: a second change per property, with the first one declared "already take
 third one, both earlier ideas declared taken; round d: a fourth, three ideas declared taken; round e: a fifth. From round d on I read the
 description of a change before running the checks against it and, where I could see that no workload
 reached it, strengthened first; those rows say "strengthened ... before the first run". After every round of strengthening all kept changes
-are re-run (`lib/eval_all_seeded.sh`) to make sure nothing that was caught is lost again.
+are re-run (`lib/eval_all_seeded.sh`) to make sure nothing that was caught is lost again; the last
+complete re-run was done at VERIF_SEED=1 and at VERIF_SEED=2 (every change that still alters behaviour
+was caught by its owning quick check at both seeds; results under `seeded/<id>/result.json`).
 
 | id | property | change | caught by (first signatures) | history |
 |---|---|---|---|---|
